@@ -239,11 +239,29 @@ def _parseq(s: str) -> Fraction:
 class Model:
     def __init__(self, prop_id: str):
         self.prop = int(prop_id[1:])
-        self.p = subprocess.Popen([driver_path(prop_id)], stdin=subprocess.PIPE, stdout=subprocess.PIPE, text=True, bufsize=1)
+        # the extracted models recurse on lists / naturals (not tail-recursive): long axes (L = 600 total wavenumbers,
+        # 1030 levels) need more than the 8 MB default stack.  Raised for the driver process only.
+        def _big_stack():
+            import resource
+            soft, hard = resource.getrlimit(resource.RLIMIT_STACK)
+            for want in (resource.RLIM_INFINITY, 1 << 32, 1 << 30, 1 << 28):
+                try:
+                    if hard != resource.RLIM_INFINITY and (want == resource.RLIM_INFINITY or want > hard): want = hard
+                    resource.setrlimit(resource.RLIMIT_STACK, (want, hard)); return
+                except (ValueError, OSError):
+                    continue
+        self.p = subprocess.Popen([driver_path(prop_id)], stdin=subprocess.PIPE, stdout=subprocess.PIPE, text=True, bufsize=1,
+                                  preexec_fn=_big_stack)
+        self._big_stack = _big_stack
         self.calls = 0
 
     def call(self, cmd: int, ints=(), arrs=()):
         """ints: iterable of int; arrs: iterable of iterables of numbers (exactly converted)."""
+        if self.p.poll() is not None:
+            # the driver died on an earlier case (reported there): restart it so that one failing case does not
+            # turn every later comparison into a follow-on error
+            self.p = subprocess.Popen([driver_path('C%02d' % self.prop)], stdin=subprocess.PIPE, stdout=subprocess.PIPE, text=True,
+                                      bufsize=1, preexec_fn=self._big_stack)
         line = (f'{_hexint(self.prop)} {_hexint(cmd)} | ' + ' '.join(_hexint(int(i)) for i in ints) + ' | ' +
                 ' ; '.join(','.join(_hexq(fr(v)) for v in a) for a in arrs) + '\n')
         self.p.stdin.write(line); self.p.stdin.flush()
